@@ -16,6 +16,7 @@ import (
 )
 
 type brWorld struct {
+	ci      int
 	e       *Env
 	r       *Rng
 	st      *Stats
